@@ -1,8 +1,8 @@
 #!/bin/bash
-# usage: tools/seed_collect.sh Cnn [extra props to evaluate]   -- collects /tmp/seed3_Cnn/out{,2} as seeded/Cnn_e / _f,
+# usage: [SUF="g:out h:out2"] tools/seed_collect.sh Cnn [extra props to evaluate]   -- collects /tmp/seed3_Cnn/out{,2} as seeded/Cnn_e / _f,
 # queues evaluation (/tmp/seedq/eval) and confirmation (/tmp/seedq/confirm), removes the scratch worktree
 id=$1; shift; cd /verif
-for s in e:out f:out2; do n=${s%%:*}; o=${s##*:}
+for s in ${SUF:-e:out f:out2}; do n=${s%%:*}; o=${s##*:}
   if [ -d /tmp/seed3_$id/$o ]; then
     mkdir -p seeded/${id}_$n
     # everything the demonstration needs (auxiliary headers live in sub-directories), except built binaries / large files
